@@ -90,9 +90,15 @@ Qed.
 Lemma slice_length {A} a b (l : list A) : (b <= length l)%nat -> (a <= b)%nat -> length (slice a b l) = (b - a)%nat.
 Proof. intros. unfold slice. rewrite firstn_length, skipn_length. lia. Qed.
 
+Lemma skipn_add {A} a b (l : list A) : skipn (a + b) l = skipn a (skipn b l).
+Proof.
+  revert l; induction b as [|b IH]; intros l. rewrite Nat.add_0_r. reflexivity.
+  rewrite Nat.add_succ_r. destruct l as [|x l]. rewrite !skipn_nil. reflexivity. cbn [skipn]. apply IH.
+Qed.
+
 Lemma skipn_skipn_app4 {A} (pre : list A) d a :
   length pre = 4%nat -> (4 <= a)%nat -> skipn a (pre ++ skipn 4 d) = skipn a d.
 Proof.
-  intros L Ha. replace a with ((a - 4) + 4)%nat by lia. rewrite <- !skipn_skipn.
-  rewrite <- L at 1. rewrite skipn_app_exact. reflexivity.
+  intros L Ha. replace a with ((a - 4) + 4)%nat by lia. rewrite !skipn_add.
+  f_equal. rewrite <- L. apply skipn_app_exact.
 Qed.
